@@ -220,7 +220,7 @@ def run_item(item):
             env['COLUMNS'] = rng.choice(['0', '1', '7', '100000', 'x', '-3'])
         if rng.random() < 0.05:
             env['DELTA_FEATURES'] = rng.choice(['+side-by-side', 'line-numbers decorations', '+', 'nonexistent', '+navigate raw'])
-        outs.append(check_one(args, data, mode, size, kind, cls, nm, parent=parent, env=env, trace=rng.random() < 0.1))
+        outs.append(check_one(args, data, mode, size, kind, cls, nm, parent=parent, env=env, trace=rng.random() < 0.1, measure_rss=rng.random() < 0.1))
     if crashmod.classify(acc) is not None:
         outs.append(check_one(args, b'', mode, size, 'empty', cls, 0))
     return outs
@@ -256,25 +256,40 @@ def run_huge(seed):
         parent = ['git', 'grep', '-n', 'fn']
     else:
         text = ''.join('plain text line %d %s\n' % (i, unit) for i in range(200000))
-    o = check_one(gen.to_args(opts), text.encode('utf-8'), 'pipe', (24, 80), 'huge:' + shape, cls, 0, parent=parent, timeout=240)
+    o = check_one(gen.to_args(opts), text.encode('utf-8'), 'pipe', (24, 80), 'huge:' + shape, cls, 0, parent=parent, timeout=240, measure_rss=True)
     o.setdefault('counters', {})['huge_inputs'] = 1
     return [o]
 
 
-def check_one(args, data, mode, size, kind, cls, mutated, variant='hooks', parent=None, env=None, trace=False, timeout=20):
+def check_one(args, data, mode, size, kind, cls, mutated, variant='hooks', parent=None, env=None, trace=False, timeout=20, measure_rss=False):
     kw = {'parent_argv': parent} if parent else {}
+    if measure_rss:
+        kw['measure_rss'] = True
     res = runner.run_delta(args, data, mode=mode, pty_size=size, timeout=timeout, variant=variant, env=env or None, trace=trace, **kw)
     sets = {'input_kinds': [kind.split('+')[0]], 'option_classes': cls, 'mode': [mode], 'calling_process': [' '.join(parent[:3]) if parent else 'none'],
             'env': sorted(env or {})}
     counters = {'input_bytes': len(data), 'mutated': mutated}
     c = crashmod.classify(res)
+    if c is not None and c['kind'] == 'timeout' and '--side-by-side' in args:
+        # wrapping a line into n rows costs O(n^2) (every row re-segments the rest of the line): a line that is tens of
+        # thousands of columns wide after tab expansion is finite but takes minutes; decided on the input, not on the clock
+        tabw = int(args[args.index('--tabs') + 1]) if '--tabs' in args and args[args.index('--tabs') + 1].isdigit() else 8
+        widest = max((len(l) + (tabw - 1) * l.count(b'\t') for l in data.split(b'\n')), default=0)
+        if widest > 20000:
+            return inconclusive('slow: side-by-side wrapping of a line %d columns wide (quadratic cost), watchdog fired' % widest,
+                                counters=counters, sets=sets)
     if c is not None and c['kind'] == 'timeout':
         if len(data) < 200000:
+            # a watchdog is not a verdict: the run is repeated with a longer limit, and it only counts as a hang when it
+            # made no progress at all (not one more byte of output) in the additional time
             res2 = runner.run_delta(args, data, mode=mode, pty_size=size, timeout=max(60, 3 * timeout), variant=variant, env=env or None, **kw)
             c2 = crashmod.classify(res2)
             if c2 is not None and c2['kind'] == 'timeout':
-                return violated('hang', 'no termination within 60 s on an input of %d bytes' % len(data), run=res2,
-                                counters=counters, sets=sets)
+                if len(res2.out) > len(res.out):
+                    return inconclusive('slow: still producing output when the watchdog fired (%d bytes after %d s, %d bytes after %d s)'
+                                        % (len(res.out), timeout, len(res2.out), max(60, 3 * timeout)), counters=counters, sets=sets)
+                return violated('hang', 'no termination within %d s on an input of %d bytes, and no output was produced after the first %d s'
+                                % (max(60, 3 * timeout), len(data), timeout), run=res2, counters=counters, sets=sets)
             res, c = res2, c2
         else:
             return inconclusive('watchdog on a large input', counters=counters, sets=sets)
@@ -302,7 +317,10 @@ def check_one(args, data, mode, size, kind, cls, mutated, variant='hooks', paren
         if res.trace and (seen != nl or not ended):
             return violated('input-not-fully-ingested', 'the state machine handled %d of %d input lines (end record: %s) although delta exited 0' % (seen, nl, ended),
                             nl, seen, run=res, counters=counters, sets=sets)
-    if res.maxrss_kb and res.maxrss_kb * 1024 > (256 << 20) + 64 * len(data):
+    if getattr(res, 'hwm_kb', None) and res.hwm_kb * 1024 > (64 << 20) + 48 * len(data):
+        return violated('runaway-allocation', 'resident-set high-water mark %d KB for %d input bytes' % (res.hwm_kb, len(data)),
+                        run=res, counters=counters, sets=sets)
+    if res.maxrss_kb and res.maxrss_kb * 1024 > (512 << 20) + 64 * len(data):
         return violated('runaway-allocation', 'peak RSS %d KB for %d input bytes' % (res.maxrss_kb, len(data)),
                         run=res, counters=counters, sets=sets)
     if b'panicked at' in res.err:
